@@ -74,6 +74,21 @@ def scan_items(t, i, end, fns, enums, mod=""):
             continue
         if k == "id" and v == "struct" and t[i + 1][0] == "id":
             name = t[i + 1][1]
+            # attributes in front of the item: does it derive Default?
+            b = i - 1
+            while b >= 0 and t[b][1] in ("pub",): b -= 1
+            while b >= 0 and t[b][1] == "]":
+                a = b; d = 0
+                while a >= 0:
+                    if t[a][1] == "]": d += 1
+                    elif t[a][1] == "[":
+                        d -= 1
+                        if d == 0: break
+                    a -= 1
+                inside = [q[1] for q in t[a:b]]
+                if "derive" in inside and "Default" in inside:
+                    enums.setdefault("__derive_default__", set()).add(name)
+                b = a - 2 if a >= 1 and t[a - 1][1] == "#" else -1
             j = i + 2; depth = 0
             while not (t[j][1] in ("{", ";", "(") and depth == 0):
                 if t[j][1] == "<": depth += 1
@@ -92,6 +107,19 @@ def scan_items(t, i, end, fns, enums, mod=""):
                         continue
                     if t[x][0] == "id" and t[x + 1][1] == ":":
                         fname = t[x][1]; y = x + 2; d = 0; ids = []
+                        if t[y][1] == "[":
+                            # an array type [Elem; N]: recorded as "[<innermost known element type>]"
+                            z = skip_balanced(t, y, "[", "]")
+                            inner = [q[1] for q in t[y + 1:z - 1] if q[0] == "id" and q[1] not in ("dyn", "mut", "RefCell", "Option", "Reference", "core", "cell", "crate", "mem", "MaybeUninit")]
+                            cut = [q for q in inner]
+                            semi = [n for n, q in enumerate(t[y + 1:z - 1]) if q[1] == ";"]
+                            if semi:
+                                cut = [q[1] for q in t[y + 1:y + 1 + semi[-1]] if q[0] == "id" and q[1] not in ("dyn", "mut", "RefCell", "Option", "Reference", "core", "cell", "crate", "mem", "MaybeUninit")]
+                            if cut: fields[fname] = "[%s]" % cut[0]
+                            y = z
+                            while y < e - 1 and t[y][1] != ",": y += 1
+                            x = y + 1
+                            continue
                         while y < e - 1 and not (t[y][1] == "," and d == 0):
                             if t[y][1] in ("<", "(", "["): d += 1
                             elif t[y][1] in (">", ")", "]"): d -= 1
@@ -600,8 +628,10 @@ class Emitter:
     def kind_of(self, e):
         """the payload kind (State / Command) of the first local with a known kind in an expression"""
         if isinstance(e, tuple):
-            if e and e[0] == "path" and len(e[1]) == 1 and e[1][0] in self.kinds:
+            if e and e[0] == "path" and len(e[1]) == 1 and self.kinds.get(e[1][0]) in ("State", "Command", "TerminalData"):
                 return self.kinds[e[1][0]]
+            if e and e[0] == "call" and e[1][0] == "path" and len(e[1][1]) == 2 and e[1][1][0] in ("State", "Command") and e[1][1][1] in ("default", "new", "new_raw"):
+                return e[1][1][0]
             if e and e[0] == "mcall" and e[2] == "get" and not e[3] and e[1][0] == "field" and e[1][1] == ("path", ["self"]) \
                     and e[1][2] in self.ext_fields:
                 return self.ext_fields[e[1][2]]
@@ -788,7 +818,7 @@ class Emitter:
         if recv == ("path", ["self"]):
             return self.self_key
         if recv[0] == "path" and len(recv[1]) == 1:
-            return recv[1][0]
+            return "Terminal" if self.kinds.get(recv[1][0]) == "Terminal" else recv[1][0]
         return None
 
     def alias_place(self, e):
@@ -900,6 +930,8 @@ class Emitter:
                     self.dispatch = old
             if fn[0] == "path":
                 path = self.res(fn[1])
+                if path == ["Time"] and len(args) == 1 and args[0] == ("path", ["i64", "MIN"]):
+                    return "(ELit (VT (-9223372036854775808)))"
                 if path in (["Time"], ["DimensionlessInteger"]) and len(args) == 1 and args[0][0] != "num":
                     return "(EOp %d [%s])" % (25 if path == ["Time"] else 26, self.expr(args[0]))
                 if len(path) == 2 and path[0] == "Command" and path[1] in PD and len(args) == 1:
@@ -912,6 +944,9 @@ class Emitter:
                     return "(ELit (VT %d))" % int(re.sub(r"_?i64", "", args[0][1]))
                 if path == ["DimensionlessInteger"] and len(args) == 1 and args[0][0] == "num":
                     return "(ELit (VD %d))" % int(re.sub(r"_?i64", "", args[0][1]))
+                if path == ["State", "default"] and not args:
+                    if "State" not in self.enums.get("__derive_default__", set()): raise ParseError("State::default(): State does not derive Default")
+                    return "(ELit (VS (snew_raw fzero fzero fzero)))"
                 if path in (["Time", "default"],) and not args:
                     return "(ELit (VT 0))"
                 if path == ["Quantity", "from"] and len(args) == 1:
@@ -929,6 +964,9 @@ class Emitter:
             raise ParseError("call of %r" % (fn,))
         if k == "mcall":
             recv, name, args = e[1], e[2], e[3]
+            if name == "get" and not args and recv[0] == "mcall" and recv[2] == "borrow" and recv[1][0] == "path" \
+                    and len(recv[1][1]) == 1 and self.kinds.get(recv[1][1][0]) == "Read":
+                return "(EVar %s)" % qs(recv[1][1][0])
             if name == "get" and not args and recv[0] == "mcall" and recv[2] == "borrow" and self.is_terminal(recv[1]):
                 # a terminal of the device itself: its Getter<State> / Getter<Command> impl, selected by the annotated type
                 if not self.expected_kind and self.default_read_kind:
@@ -1026,7 +1064,7 @@ class Emitter:
             elif recv == ("path", ["self"]):
                 hint = self.self_key
             elif recv[0] == "path" and len(recv[1]) == 1:
-                hint = recv[1][0]
+                hint = "Terminal" if self.kinds.get(recv[1][0]) == "Terminal" else recv[1][0]
             kf = self.find_fn(name, len(args), hint)
             if kf[1]["self_mut"]:
                 return self.inline_mut(recv, kf, args)
@@ -1062,11 +1100,55 @@ class Emitter:
             return "(EMatch %s %s)" % (self.expr(e[1]), self.lst(arms))
         if k == "for" and e[2][0] == "range":
             return "(EForRange %s %s %s %s)" % (qs(e[1]), self.expr(e[2][1]), self.expr(e[2][2]), self.expr(e[3]))
+        if k == "for" and self.terminal_array(e[2]):
+            # `for i in &self.inputs` over the device's own terminals.  A loop that only reads them (`i.borrow().get()`) runs over
+            # what the terminals read (an input array, one entry per terminal); a loop that writes (`i.borrow_mut().set / update`)
+            # runs over the terminals themselves and writes them back.
+            fld = self.terminal_array(e[2]); x = e[1]
+            reads = self.count_calls(e[3], x, ("get",)); writes = self.count_calls(e[3], x, ("set", "update"))
+            if reads and writes: raise ParseError("loop over terminals that both reads and writes them")
+            oldk = self.kinds.get(x)
+            try:
+                if writes:
+                    self.kinds[x] = "Terminal"
+                    return "(EForMut %s (LField (LVar \"self\") %s) %s)" % (qs(x), qs(fld), self.expr(e[3]))
+                kind = self.kind_of(e[3])
+                if kind not in ("State", "Command"): raise ParseError("loop reading terminals: cannot tell the payload kind")
+                self.kinds[x] = "Read"
+                nm = "get:%s:%s" % (fld, kind)
+                self.inputs.add(nm[4:])
+                return "(EFor %s (EVar %s) %s)" % (qs(x), qs(nm), self.expr(e[3]))
+            finally:
+                if oldk is None: self.kinds.pop(x, None)
+                else: self.kinds[x] = oldk
         if k == "for":
             return "(EFor %s %s %s)" % (qs(e[1]), self.for_coll(e[2]), self.expr(e[3]))
         if k == "block":
             return self.block(e[1], e[2])
         raise ParseError("expression form %r" % (k,))
+
+    def terminal_array(self, e):
+        """`&self.<field>` where the field is an array of Terminals (reads_as_inputs devices only): the field name"""
+        if not self.reads_as_inputs: return None
+        x = e
+        while x[0] in ("unary", "paren"):
+            x = x[2] if x[0] == "unary" else x[1]
+        if x[0] == "field" and x[1] == ("path", ["self"]):
+            st = self.enums.get("__structs__", {}).get((self.self_key or "").split("<")[0], {})
+            if st.get(x[2]) == "[Terminal]": return x[2]
+        return None
+
+    def count_calls(self, e, var, names):
+        n = 0
+        if isinstance(e, tuple):
+            if e and e[0] == "mcall" and e[2] in names:
+                r = e[1]
+                while r[0] == "mcall" and r[2] in ("borrow", "borrow_mut") and not r[3]: r = r[1]
+                if r == ("path", [var]): n += 1
+            for y in e: n += self.count_calls(y, var, names)
+        elif isinstance(e, list):
+            for y in e: n += self.count_calls(y, var, names)
+        return n
 
     def for_coll(self, e):
         # `for i in &self.inputs` over an array of getters: the items are what each getter returns
